@@ -211,7 +211,12 @@ func (r Rule) Apply(facts *FactSet, newFacts *FactSet, syms *SymbolTable) error 
 		}
 	}
 
-	combinations := combine(variables, r.Body, r.Expressions, facts, syms)
+	// closed on every return path so that the producer goroutine never stays
+	// blocked on a combination nobody will receive
+	stop := make(chan struct{})
+	defer close(stop)
+
+	combinations := combine(variables, r.Body, r.Expressions, facts, syms, stop)
 
 	for res := range combinations {
 		if res.error != nil {
@@ -357,7 +362,9 @@ func (w *World) Rules() []Rule {
 }
 
 func (w *World) Run(syms *SymbolTable) error {
-	done := make(chan error)
+	// buffered: the evaluation goroutine must be able to deliver its result and
+	// terminate even when the timeout has already made Run return
+	done := make(chan error, 1)
 	ctx, cancel := context.WithTimeout(context.Background(), w.runLimits.maxDuration)
 	defer cancel()
 
@@ -485,7 +492,7 @@ func (m MatchedVariables) Clone() MatchedVariables {
 	return res
 }
 
-func combine(variables MatchedVariables, predicates []Predicate, expressions []Expression, facts *FactSet, syms *SymbolTable) <-chan struct {
+func combine(variables MatchedVariables, predicates []Predicate, expressions []Expression, facts *FactSet, syms *SymbolTable, stop <-chan struct{}) <-chan struct {
 	MatchedVariables
 	error
 } {
@@ -568,10 +575,13 @@ func combine(variables MatchedVariables, predicates []Predicate, expressions []E
 						res, err := e.Evaluate(complete_vars, syms)
 						if err != nil {
 							fmt.Printf("expression error: %+v", err)
-							c <- struct {
+							select {
+							case c <- struct {
 								MatchedVariables
 								error
-							}{complete_vars, err}
+							}{complete_vars, err}:
+							case <-stop:
+							}
 
 							return
 						}
@@ -583,10 +593,14 @@ func combine(variables MatchedVariables, predicates []Predicate, expressions []E
 
 					if valid {
 						//fmt.Printf("sending valid variables %+v\n", complete_vars)
-						c <- struct {
+						select {
+						case c <- struct {
 							MatchedVariables
 							error
-						}{complete_vars, nil}
+						}{complete_vars, nil}:
+						case <-stop:
+							return
+						}
 					}
 				} else {
 					// if all predicates match but variables are not complete, it means
